@@ -2,8 +2,10 @@
 //! and the value family's reference model (what a spec's tag must produce).
 use serde::{Deserialize, Serialize};
 
-pub const TY_NAMES: [&str; 14] = ["()", "u8", "u64", "[u8;3]", "[u8;24]", "[u64;512]", "align64", "align4096", "Vec<u8>", "bool", "char", "Option<u8>", "fieldless-enum", "align16"];
-pub const NTY: u8 = 14;
+pub const TY_NAMES: [&str; 15] = ["()", "u8", "u64", "[u8;3]", "[u8;24]", "[u64;512]", "align64", "align4096", "Vec<u8>", "bool", "char", "Option<u8>", "fieldless-enum", "align16", "destructor-panics-on-the-thread"];
+pub const NTY: u8 = 15;
+/// a result whose destructor panics when it runs on the spawned thread (harmless on the main thread)
+pub const TY_BOMB: u8 = 14;
 pub const TY_VEC: u8 = 8;
 
 pub const DISP_JOIN: u8 = 0;
@@ -160,6 +162,7 @@ pub fn value_len(ty: u8, tag: u64) -> usize {
         11 => 2,
         12 => 1,
         13 => 112,
+        14 => 8,
         _ => (splitmix(tag ^ 0x0abc) % 301) as usize,
     }
 }
